@@ -5,8 +5,12 @@ import (
 	"reflect"
 	"strings"
 
+	yae "github.com/goghcrow/yae"
 	"github.com/goghcrow/yae/parser/ast"
+	"github.com/goghcrow/yae/parser/oper"
 	"github.com/goghcrow/yae/trans"
+	"github.com/goghcrow/yae/types"
+	"github.com/goghcrow/yae/val"
 
 	"verif/harness/bridge"
 	"verif/harness/ref"
@@ -345,6 +349,7 @@ func checkSugarPair(c *run.Ctx, id string, e *ref.E, env *bridge.Env, user []*re
 }
 
 func runC10(c *run.Ctx) {
+	lateOperators(c)
 	user := ref.UserFuns()
 	bt := builtinTable()
 	sess := bridge.NewSession(user)
@@ -456,11 +461,73 @@ func knownGroupedCallee(c *run.Ctx, sess *bridge.Session) {
 	})
 }
 
+// lateOperators: an engine that has already compiled something gets a new
+// operator; its sugared form must mean the call of the registered function.
+func lateOperators(c *run.Ctx) {
+	type lateOp struct {
+		op   oper.Operator
+		fn   *val.Val
+		src  string
+		want float64
+	}
+	num2 := func(name string, f func(x, y float64) float64) *val.Val {
+		return val.Fun(types.Fun(name, []*types.Type{types.Num, types.Num}, types.Num), func(a ...*val.Val) *val.Val {
+			return val.Num(f(a[0].Num().V, a[1].Num().V))
+		})
+	}
+	num1 := func(name string, f func(x float64) float64) *val.Val {
+		return val.Fun(types.Fun(name, []*types.Type{types.Num}, types.Num), func(a ...*val.Val) *val.Val { return val.Num(f(a[0].Num().V)) })
+	}
+	ops := []lateOp{
+		{oper.Operator{Kind: "+-", BP: oper.BP_TERM, Fixity: oper.INFIX_L}, num2("+-", func(x, y float64) float64 { return 700 + x*10 + y }), "x +- 2", 700 + 30 + 2},
+		{oper.Operator{Kind: "<=>", BP: oper.BP_CMP, Fixity: oper.INFIX_N}, num2("<=>", func(x, y float64) float64 { return x - y + 100 }), "x <=> 2", 101},
+		{oper.Operator{Kind: "mod", BP: oper.BP_FACTOR, Fixity: oper.INFIX_L}, num2("mod", func(x, y float64) float64 { return 50 + x + y }), "x mod 2", 55},
+		{oper.Operator{Kind: "**", BP: oper.BP_EXP, Fixity: oper.INFIX_R}, num2("**", func(x, y float64) float64 { return x*100 + y }), "x ** 2 ** 1", 3*100 + (2*100 + 1)},
+		{oper.Operator{Kind: "~", BP: oper.BP_PREFIX, Fixity: oper.PREFIX}, num1("~", func(x float64) float64 { return x + 0.5 }), "~x", 3.5},
+		{oper.Operator{Kind: "!!", BP: oper.BP_POSTFIX, Fixity: oper.POSTFIX}, num1("!!", func(x float64) float64 { return x * 1000 }), "x!!", 3000},
+		{oper.Operator{Kind: "-->", BP: oper.BP_TERM, Fixity: oper.INFIX_L}, num2("-->", func(x, y float64) float64 { return 9000 + x + y }), "x --> 2", 9005},
+	}
+	env := map[string]interface{}{"x": 3.0}
+	for i, lo := range ops {
+		for warm := 0; warm < 3; warm++ {
+			if !c.Mine(i*3 + warm) {
+				continue
+			}
+			lo, warm := lo, warm
+			c.Case(fmt.Sprintf("late-operator/%d/%d", i, warm), func() {
+				ex := yae.NewExpr()
+				if warm == 2 {
+					ex.UseClosureCompiler()
+				}
+				for k := 0; k < warm; k++ { // the engine has been used before the registration
+					if _, err := ex.Compile("x + 1 - 2 * x", env); err != nil {
+						c.Violation("sugar-acceptance", "warm-up compile failed: "+err.Error(), nil)
+						return
+					}
+				}
+				ex.RegisterOperator(lo.op).RegisterFun(lo.fn)
+				c.Count("sugar_pairs", 1)
+				what := fmt.Sprintf("%q after registering %s on an engine used %d time(s) before", lo.src, lo.op.Kind, warm)
+				cl, err := ex.Compile(lo.src, env)
+				if err != nil {
+					c.Violation("sugar-acceptance", fmt.Sprintf("%s is rejected: %v", what, err), nil)
+					return
+				}
+				v, err := cl(env)
+				if err != nil || v.Num().V != lo.want {
+					c.Violation("sugar-meaning", fmt.Sprintf("%s gives %v %v; the explicit call gives %v", what, v, err, lo.want), nil)
+				}
+				c.Distinct(what)
+			})
+		}
+	}
+}
+
 func init() {
 	run.Register(&run.Spec{
 		ID: "C10", Run: runC10, Level: "exploration",
 		Rule: "structural half: parsed trees from (a) the parser-level tree generator (all node kinds nested in all operand positions, redundant parentheses partly dropped) and (b) generated well-typed programs with 85% sugared forms and 12% redundant groups: Desugar leaves only core node kinds, Desugar∘Desugar == Desugar (full field snapshot), the input tree is byte-for-byte unchanged after Desugar / Check / all four compilers, the desugared tree equals the explicit call tree (receiver first, arguments in source order); " +
-			"semantic half: sugared source vs the explicit tree built directly as ast nodes (no parser): equal acceptance, inferred type, outcome and host-call trace on 4 back ends, plus agreement with the reference evaluator; a nesting matrix puts every sugar form (prefix, infix, right-assoc chain, ?:, method call, group, sugar inside a subscript index / member object of a method receiver) in every operand position of every construct, two deep. distinct = distinct source text",
+			"semantic half: sugared source vs the explicit tree built directly as ast nodes (no parser): equal acceptance, inferred type, outcome and host-call trace on 4 back ends, plus agreement with the reference evaluator; user operators (infix, right-assoc, prefix, postfix, identifier-like, spellings composed of built-in operators) registered on an engine that has already compiled; a nesting matrix puts every sugar form (prefix, infix, right-assoc chain, ?:, method call, group, sugar inside a subscript index / member object of a method receiver) in every operand position of every construct, two deep. distinct = distinct source text",
 		Assume:    []string{"explicit form = ast.Call(ast.Var(name), args) as produced by bridge.ToAST"},
 		MinEvents: 3000, EventKey: "trees_desugared",
 	})
